@@ -269,6 +269,78 @@ def enumerate_cases(run):
     return cases
 
 
+# ------------------------------------------------------------------ huge arrays (lazily, O(1) per probe)
+def huge_family():
+    """views over ranges of more than 2^31 (up to 2^32) elements: nothing is ever materialised, only the
+    length and single positions on both sides of 2^31 / 2^32 and of the end are read"""
+    R1, R2 = ("range", -10, 2147483647), ("range", -2147483648, 2147483647)
+    views = []
+    for R in (R1, R2):
+        views += [R, ("rev", R), ("slice", R, -3, None, None, "idx"), ("slice", R, 2147483640, None, 7, "idx"),
+                  ("slice", ("rev", R), 5, -5, 3, "idx"), ("cat", R, ("lit", [1, 2], "lit")),
+                  ("cat", ("lit", [3], "lit"), R), ("rev", ("slice", R, 2147483646, None, None, "idx")),
+                  ("rep", ("slice", R, 2147483640, 2147483645, None, "idx"), 3)]
+    return views
+
+
+def correspond_huge(run, binary):
+    failures = []
+    views = huge_family()
+    fixed = [0, 1, 5, 2147483647, 2147483648, 2147483649, 3000000000, 4294967295, 4294967296, 4294967305]
+    exprs = []
+    for v in views:
+        idx = "[" + "; ".join(f"{i}%N" for i in fixed) + "]"
+        exprs.append(f"match build {op_coq(v)} with BOk v => Some (len_impl v, map (get_impl v) {idx}, "
+                     f"match len_impl v with Some n => map (get_impl v) [n - 3; n - 1; n; n + 1]%N | None => [] end) "
+                     f"| _ => None end")
+    model = core.coq_eval(IMPORTS, exprs)
+    reqs, meta = [], []
+    for v, m in zip(views, model):
+        if isinstance(m, tuple) and m and m[0] == "ERROR":
+            run.obligation("model.eval.huge", False, str(m[1])[:300])
+            continue
+        got = opt_py(m, lambda t: t)
+        if got is None or opt_py(got[1][0], int) is None:
+            run.obligation("model.eval.huge", False, f"model could not build {op_js(v)}")
+            continue
+        mlen, mfixed, mend = got[1]
+        n = opt_py(mlen, int)[1]
+        ajs = op_js(v)
+        run.note_case("huge:" + ajs, True)
+        run.count("huge-view")
+        positions = list(zip(fixed, mfixed)) + list(zip([n - 3, n - 1, n, n + 1], mend))
+        base = len(reqs)
+        reqs.append({"code": f"std.length({ajs})"})
+        for i, _ in positions:
+            reqs.append({"code": f"({ajs})[{i}]"})
+        meta.append((ajs, n, positions, base))
+    outs = core.run_harness(binary, "eval", reqs)
+    for ajs, n, positions, base in meta:
+        case = {"jsonnet": ajs}
+        o = outs[base]
+        if core.decanon(o.get("ok")) != n if "ok" in o else True:
+            failures.append({"case": case, "summary": f"C08 length of a huge view differs from the model: {ajs}",
+                             "what": "huge length", "expected": n, "got": o})
+            continue
+        for k, (i, me) in enumerate(positions):
+            o = outs[base + 1 + k]
+            # Some (Some e): element | Some None: absent | None: the implementation model panics
+            exp = opt_py(me, lambda inner: opt_py(inner, elem_py))
+            if i >= n or i < 0:
+                good = o.get("err") == "ArrayBoundsError"
+                want = "ArrayBoundsError"
+            else:
+                want = exp
+                good = ("ok" in o and exp is not None and exp[1] is not None
+                        and core.decanon(o["ok"]) == exp[1][1])
+            if not good:
+                failures.append({"case": dict(case, request={"code": f"({ajs})[{i}]"}),
+                                 "summary": f"C08 position {i} of a huge view (length {n}) differs from the model: {ajs}",
+                                 "what": "huge index", "expected": want, "got": o})
+                break
+    return failures
+
+
 # ------------------------------------------------------------------ the check
 EXTRA = 3
 
@@ -305,6 +377,7 @@ def check(run, terrs):
         run.obligation("harness.build", False, err)
         return core.conclude(run, False, err, [], [])
     failures, model_diffs = correspond(run, binary, enumerate_cases(run))
+    failures += correspond_huge(run, binary)
     run.trusted = TRUSTED
     run.assumptions = ASSUMPTIONS
     return core.conclude(
